@@ -1248,7 +1248,8 @@ func GenProg(r *prng.R, cfg Cfg, pkg string) *Prog {
 		g.prog.Files = append(g.prog.Files, tf, &File{Name: "plain_rotate.go", Decls: plain, Extern: pfs})
 	}
 	if (cfg.Profile == "all" || cfg.Profile == "bystander") && !cfg.NoHelp {
-		imps, src, ref, fs := optTemplates(r, g.nextTag)
+		imps, src, ref, fs, plain := optTemplates(r, g.nextTag)
+		g.prog.Files = append(g.prog.Files, &File{Name: "plain_opt.go", Decls: plain})
 		name := "gen_opt.go"
 		if cfg.OptFile != "" {
 			name = cfg.OptFile
